@@ -48,3 +48,38 @@ Theorem group_gradient_sparse_eq_dense :
   = @QuadraticGroup_gradient_g R _ grp_ptr grp_indices X y w Xw g.
 Proof. exact QuadraticGroup_gradient_g_sparse_eq_dense. Qed.
 Print Assumptions group_gradient_sparse_eq_dense.
+
+(* GroupBCD: the whole regenerated block epoch, sparse = dense, for any prox and any pair of agreeing group-gradient accessors;
+   closed for the regenerated QuadraticGroup datafit; and the stacked working-set gradient *)
+Require Import SK.Gen.KernBCD SK.Lemmas.BcdEpoch.
+Theorem trajectory_sparse_eq_dense_bcd_epoch : forall (prox_1group : list R -> R -> Z -> res (list R))
+    (gg_dense : list (list R) -> list R -> list R -> list R -> Z -> res (list R))
+    (gg_sparse : list R -> list Z -> list Z -> list R -> list R -> list R -> Z -> res (list R))
+    (n : nat) (M : csc) (X : list (list R)) (y lip : list R) (grp_ptr grp_indices : list Z),
+  (forall j, In j grp_indices -> exists lo hi, col_bounds M j lo hi /\ wf_col n M lo hi /\ mcol X j = Ok (dense_col n M lo hi)) ->
+  (forall w Xw g, length Xw = n -> gg_sparse (cdata M) (cindptr M) (cindices M) y w Xw g = gg_dense X y w Xw g) ->
+  forall ws w Xw, length Xw = n ->
+  @_bcd_epoch_sparse R _ grp_ptr grp_indices gg_sparse prox_1group (cdata M) (cindptr M) (cindices M) y w Xw lip ws
+  = @_bcd_epoch R _ grp_ptr grp_indices gg_dense prox_1group X y w Xw lip ws.
+Proof. exact bcd_epoch_sparse_eq_dense. Qed.
+Print Assumptions trajectory_sparse_eq_dense_bcd_epoch.
+
+Theorem trajectory_sparse_eq_dense_bcd_epoch_quadratic_group : forall prox n M (X : list (list R)) y lip grp_ptr grp_indices ws w Xw,
+  length Xw = n -> length y = n ->
+  (forall j, In j grp_indices -> exists lo hi, col_bounds M j lo hi /\ wf_col n M lo hi /\ mcol X j = Ok (dense_col n M lo hi)) ->
+  @_bcd_epoch_sparse R _ grp_ptr grp_indices (@QuadraticGroup_gradient_g_sparse R _ grp_ptr grp_indices) prox
+      (cdata M) (cindptr M) (cindices M) y w Xw lip ws
+  = @_bcd_epoch R _ grp_ptr grp_indices (@QuadraticGroup_gradient_g R _ grp_ptr grp_indices) prox X y w Xw lip ws.
+Proof. exact QuadraticGroup_bcd_epoch_sparse_eq_dense. Qed.
+Print Assumptions trajectory_sparse_eq_dense_bcd_epoch_quadratic_group.
+
+Theorem group_working_set_gradient_sparse_eq_dense :
+  forall (gg_dense : list (list R) -> list R -> list R -> list R -> Z -> res (list R))
+    (gg_sparse : list R -> list Z -> list Z -> list R -> list R -> list R -> Z -> res (list R))
+    (n : nat) (M : csc) (X : list (list R)) (y : list R),
+  (forall w Xw g, length Xw = n -> gg_sparse (cdata M) (cindptr M) (cindices M) y w Xw g = gg_dense X y w Xw g) ->
+  forall dgp ws w Xw, length Xw = n ->
+  @bcd_construct_grad_sparse R _ dgp gg_sparse (cdata M) (cindptr M) (cindices M) y w Xw ws
+  = @bcd_construct_grad R _ dgp gg_dense X y w Xw ws.
+Proof. exact bcd_construct_grad_sparse_eq_dense. Qed.
+Print Assumptions group_working_set_gradient_sparse_eq_dense.
